@@ -200,6 +200,68 @@ def run_binary_representation(ctx):
             ctx.disagree('Bn.binary: the model\'s result is not well formed (PT.wf)', case, want, rep)
 
 
+def run_reshape_representation(ctx):
+    """the model `Rs.reshape` of reshape_or_view (fresh axes for the target sizes, unification of the two products, re-dimensioning of
+    the physical tensor along the prime factors) predicts the outcome — RuntimeError or the REPRESENTATION of the result — for merges,
+    splits, inserted/removed size-1 dimensions and arbitrary factorisations of the number of elements"""
+    from .unifygen import canon
+    from .common import enc_ext
+    reqs, meta = [], []
+    for k in range(80 if ctx.quick else 1500):
+        nd = ctx.rng.choice([0, 1, 1, 2, 2, 3])
+        types = [ptgen.random_type(ctx.rng, depth=ctx.rng.choice([1, 2, 2]), sizes=[1, 2, 3, 2, 4]) for _ in range(nd)]
+        if math.prod(ty_numel(t) for t in types) > 300:
+            continue
+        t = random_pt(ctx.rng, types, defaults=[0.0, 1.0], specials=0.0)
+        N = math.prod(t.shape)
+        shp, cands = list(t.shape), []
+        if nd >= 2:
+            i = ctx.rng.randrange(nd - 1); cands.append(shp[:i] + [shp[i] * shp[i + 1]] + shp[i + 2:])
+        cands += [[1] + shp, shp + [1], [x for x in shp if x != 1], [N]]
+        if N > 1:
+            facs = [q for q in range(1, N + 1) if N % q == 0]
+            a, b = ctx.rng.choice(facs), ctx.rng.choice(facs)
+            cands += [[a, N // a], [N // b, b]]
+        for s in cands:
+            ids = {}
+            pa = enc_list(t.paxes, lambda k_: f'{ids.setdefault(id(k_), len(ids))} {k_._numel}')
+            va = enc_list(t.vaxes, lambda e: ptgen.enc_axis(e, ids))
+            et = f'{enc_list(t.physical.contiguous().reshape(-1).tolist(), enc_ext)} {pa} {va} {enc_ext(t.default)}'
+            case = dict(op='reshape', operand=et, shape=s)
+            try:
+                r = t.reshape(*s); out = 'ok'
+            except RuntimeError:
+                out = 'RuntimeError'
+            except AssertionError:
+                out = 'AssertionError'
+            except Exception as e:  # noqa
+                ctx.fail(f'reshape raised {type(e).__name__} (neither a tensor nor RuntimeError)', case, repr(e), None, tags=['raises', 'reshape', type(e).__name__])
+                continue
+            want = None
+            if out == 'ok':
+                ids2 = dict(ids)
+                pa2 = enc_list(r.paxes, lambda k_: f'P {ids2.setdefault(id(k_), len(ids2))} {k_._numel}')
+                va2 = enc_list(r.vaxes, lambda e: ptgen.enc_axis(e, ids2))
+                want = f'{enc_list(r.physical.contiguous().reshape(-1).tolist(), enc_ext)} {pa2} {va2} {enc_ext(float(r.default))}'
+            reqs.append(f'C06.reshape {et} {enc_list(s)} {len(ids) + 5}')
+            meta.append((case, out, want))
+            ctx.count('reshape-representation.' + out)
+    for (case, out, want), rep in zip(meta, ctx.driver.ask_many(reqs)):
+        if isinstance(rep, Exception):
+            raise rep
+        ctx.evaluations += 1
+        if out != 'ok' or not rep.startswith('ok'):
+            if rep.split()[0] != out:
+                ctx.disagree('Rs.reshape: outcome (tensor / RuntimeError / AssertionError)', case, out, rep[:120])
+            continue
+        toks = rep.split()[1:]
+        i = 0; L = int(toks[i]); phys = toks[i + 1:i + 1 + L]; i += 1 + L
+        P = int(toks[i]); pax = toks[i + 1:i + 1 + 2 * P]; i += 1 + 2 * P
+        mp = [str(L)] + phys + [str(P)] + sum((['P', pax[2 * j], pax[2 * j + 1]] for j in range(P)), []) + toks[i:-1]
+        if canon(mp) != canon(want.split()) or toks[-1] != 'T':
+            ctx.disagree('Rs.reshape: representation of the result', case, want, ' '.join(mp))
+
+
 def run_unit_factors(ctx, reqs, meta):
     """index types with a factor of ONE element that is not the unit axis (a one-component sum `0 + () + 0`, as patterned JSON
     weights can spell it) at the start, in the middle or at the END of a product, each operand representing the same type in its own
@@ -297,6 +359,7 @@ def run(ctx):
     if unclassified:
         ctx.fail('PatternedTensor has public operations that the check does not classify', sorted(unclassified), None, None, tags=['unclassified-op'])
     run_binary_representation(ctx)
+    run_reshape_representation(ctx)
     reqs, meta = [], []
     run_unit_factors(ctx, reqs, meta)
     U, B = unary_ops(), binary_ops()
